@@ -45,8 +45,19 @@ type c34Stream struct {
 	// stream was sent after that. See negWindowNote.
 	maybeNeg   bool
 	wuAfterDec bool
+	corrupt    string // first content mismatch seen on the stream
 	h          *hctl
 }
+
+// c34KeyInflight: when a stream is closed (client RST_STREAM, or the server's own reset)
+// while one of its DATA frames is still on its way through the writer goroutine, the
+// handler is released at once, returns, and its responseWriterState - including the 4 KiB
+// bufio buffer the in-flight frame still points into - goes back to
+// responseWriterStatePool; the handler of the next request on any connection takes it and
+// overwrites the buffer, so the in-flight frame is sent with bytes of another response.
+// Timing-dependent (the race detector reports it as a data race between
+// (*Framer).WriteDataPadded and bufio.(*Writer).Write).
+const c34KeyInflight = "inflight-data-frame-of-reset-stream-carries-other-response"
 
 // negWindowNote: bfe_http2 flow.add computes "(1<<31-1) - f.n" in int32, which overflows
 // whenever the window f.n is negative (legal after the peer lowered
@@ -171,20 +182,22 @@ func (c *c34Conn) onFrame(e *fev) {
 			c.r.violate("server-padded-data", "stream %d: unexpected padding", s.id)
 		}
 		off := int(s.recv)
-		if s.clientReset {
-			// The client has cancelled the stream; frames still in flight are only checked
-			// against the windows. (bfe recycles the handler's write buffer as soon as the
-			// stream is closed, while a frame of it may still be in the writer goroutine -
-			// a data race the race detector reports, outside the statement of C34.)
-		} else if off+len(e.Data) > s.total {
-			c.r.violate("data-beyond-body", "stream %d: received %d octets, handler wrote %d", s.id, off+len(e.Data), s.total)
-		} else {
+		// A content mismatch is judged when the fate of the stream is known (see
+		// c34KeyInflight): recorded here, classified at END_STREAM / reset / end of case.
+		if off+len(e.Data) > s.total {
+			if s.corrupt == "" {
+				s.corrupt = fmt.Sprintf("received %d octets, handler wrote %d", off+len(e.Data), s.total)
+			}
+		} else if s.corrupt == "" {
 			for i, b := range e.Data {
 				if b != pat(s.idx, off+i) {
-					c.r.violate("data-out-of-order", "stream %d: octet at body offset %d differs from what the handler wrote there", s.id, off+i)
+					s.corrupt = fmt.Sprintf("octet at body offset %d (frame %v) differs from what the handler wrote there", off+i, e)
 					break
 				}
 			}
+		}
+		if s.corrupt != "" && e.End {
+			c.r.violate("data-out-of-order", "stream %d: %s", s.id, s.corrupt)
 		}
 		s.recv += l
 		c.connWin -= l
@@ -566,6 +579,28 @@ func c34Run(rt *rapid.T, rec *ev.Rec) {
 				}
 			})
 			checkViol()
+		}
+	}
+	if !failed {
+		var corruptReset *c34Stream
+		var corruptLive *c34Stream
+		r.locked(func() {
+			for _, s := range c.streams {
+				if s.corrupt == "" {
+					continue
+				}
+				if s.clientReset || s.srvRST {
+					corruptReset = s
+				} else if s.ended || inconclusive == "" {
+					corruptLive = s
+				}
+			}
+		})
+		if corruptLive != nil {
+			fail("data-out-of-order", "stream %d: %s", corruptLive.id, corruptLive.corrupt)
+		} else if corruptReset != nil {
+			classes["corrupt-inflight-frame-on-reset-stream"] = true
+			rec.Fail(rt, c34KeyInflight, w(), "stream %d (reset while a DATA frame was in flight): %s", corruptReset.id, corruptReset.corrupt)
 		}
 	}
 	if inconclusive != "" {
